@@ -333,12 +333,17 @@ static void enqueue_unfiltered(World &w, int fdnum, const Frame &f) {
 
 void World::deliver(const Frame &f, uint64_t delay, int only_node, int except_node) {
     at(now + delay, [this, f, only_node, except_node] {
+        bool udp_taken = false;
+        struct Unreach { World *w; const Frame &f; bool &taken; ~Unreach() {
+            // nobody listens on that port: the host answers with ICMP port unreachable, which a *connected* sender gets as ECONNREFUSED
+            if (f.udp && !taken && f.src_fd >= 0) { FdEnt *s = w->fd(f.src_fd); if (s && s->kind == FdEnt::UDP && s->connected) { s->pending_err = ECONNREFUSED; w->count("ev.icmp_port_unreachable"); } }
+        } } unreach{this, f, udp_taken};
         for (size_t i = 0; i < fds.size(); i++) {
             FdEnt &e = fds[i];
             if (only_node >= 0 && e.node != only_node) continue;
             if (except_node >= 0 && e.node == except_node) continue;
             if (f.udp) {
-                if (e.kind == FdEnt::UDP && e.bound && e.proto == f.proto && e.node != f.src_node) enqueue(*this, kFdBase + (int)i, f);
+                if (e.kind == FdEnt::UDP && e.bound && e.proto == f.proto && e.node != f.src_node) { enqueue(*this, kFdBase + (int)i, f); udp_taken = true; }
             } else {
                 if (e.kind != FdEnt::PACKET || !e.bound) continue;
                 bool all = e.proto == ETH_P_ALL;
@@ -635,6 +640,20 @@ int __wrap_ioctl(int fd, unsigned long req, ...) {
     return -1;
 }
 
+int __real_connect(int, const struct sockaddr *, socklen_t);
+int __wrap_connect(int fd, const struct sockaddr *addr, socklen_t len) {
+    if (!in_sim()) return __real_connect(fd, addr, len);
+    World &w = *g_world;
+    w.sched_point();
+    FdEnt *e = w.fd(fd);
+    if (!e) { errno = EBADF; return -1; }
+    if (e->kind != FdEnt::UDP) { errno = EOPNOTSUPP; return -1; }
+    (void)addr; (void)len;
+    e->connected = true;   // a connected UDP socket is told when the peer's port turns out to be closed (ICMP port unreachable)
+    w.count("ev.udp_connect");
+    return 0;
+}
+
 int __wrap_bind(int fd, const struct sockaddr *addr, socklen_t len) {
     if (!in_sim()) return __real_bind(fd, addr, len);
     World &w = *g_world;
@@ -728,6 +747,9 @@ ssize_t __wrap_recv(int fd, void *buf, size_t len, int flags) {
     FdEnt *e = w.fd(fd);
     if (!e || (e->kind != FdEnt::PACKET && e->kind != FdEnt::UDP)) { errno = EBADF; return -1; }
     uint64_t rdl = e->rcvtimeo_ns ? w.now + e->rcvtimeo_ns : 0;
+    // readiness is a hint: a datagram whose checksum turns out to be wrong is discarded when it is copied, and a non-blocking receive
+    // then finds nothing (select(2), BUGS). Cooperative fault point: only programs that ask for MSG_DONTWAIT can see it.
+    if ((flags & MSG_DONTWAIT) && (e->rxq.empty() || w.rng_net.chance(0.05))) { w.count("fault.recv_eagain"); w.log("recv-eagain", (uint64_t)fd); errno = EAGAIN; return -1; }
     while (e->rxq.empty()) {
         if (rdl && w.now >= rdl) { w.count("ev.rcvtimeo"); w.log("recv-timeout", (uint64_t)fd); errno = EAGAIN; return -1; }
         w.block_on({fd}, rdl);
@@ -761,6 +783,7 @@ ssize_t __wrap_sendto(int fd, const void *buf, size_t len, int flags, const stru
     w.sched_point();
     FdEnt *e = w.fd(fd);
     if (!e || (e->kind != FdEnt::PACKET && e->kind != FdEnt::UDP)) { errno = EBADF; return -1; }
+    if (e->pending_err) { errno = e->pending_err; e->pending_err = 0; w.count("ev.sendto_econnrefused"); w.log("sendto-econnrefused", (uint64_t)fd); return -1; }
     // a non-blocking send may find the transmit queue full (cooperative fault point: only programs that ask for MSG_DONTWAIT see it)
     if ((flags & MSG_DONTWAIT) && w.rng_net.chance(0.1)) { w.count("fault.sendto_eagain"); w.log("sendto-eagain", (uint64_t)fd); errno = EAGAIN; return -1; }
     // UDP: MSG_MORE corks the socket - the data waits for the send that completes the datagram (a packet socket ignores the flag)
@@ -783,6 +806,7 @@ ssize_t __wrap_sendto(int fd, const void *buf, size_t len, int flags, const stru
     f.data.assign((const uint8_t *)buf, (const uint8_t *)buf + len);
     Node &nd = w.cur_node();
     f.src_node = w.cur_node_id();
+    f.src_fd = fd;
     f.src_index = (int)nd.sent++;
     f.id = w.next_frame_id++;
     if (e->kind == FdEnt::UDP) {
